@@ -10,7 +10,7 @@
 //!    (a legal one-thread rayon schedule; deterministic), and
 //!  * runs them on `W` real OS threads under a cooperative, fully controlled scheduler when an
 //!    explorer is installed on the calling thread (see [`verif`]).
-#![forbid(unsafe_code)]
+#![deny(unsafe_code)] // one audited exception: lifetime erasure for the persistent worker pool (verif.rs)
 
 pub mod iter;
 pub mod verif;
